@@ -29,7 +29,7 @@ def payload_of(api, arg):
 
 class Execution(object):
     """What one schedule produced."""
-    __slots__ = ('sched', 'world', 'ws', 'harness', 'frames', 'garbage', 'events', 'wire_len', 'released', 'selectors_closed')
+    __slots__ = ('sched', 'world', 'ws', 'harness', 'frames', 'garbage', 'events', 'wire_len', 'released', 'selectors_closed', 'frames2', 'garbage2', 'ws2')
 
 
 def make_runner(h):
@@ -44,7 +44,7 @@ def make_runner(h):
                 comp = ref_deflate.Peer().compress(('from the server, compressed: ' + 'xyz' * 20).encode())
                 st = ref_ws.enc_frame(ref_ws.TEXT, comp, rsv=4)
             steps.append(st)
-        world = W.World(W.Script(steps, default=W.Silence), max_waits=30)
+        world = W.World(W.Script(steps, [W.HANDSHAKE(h.get('ext', b''))], default=W.Silence), max_waits=30)
         world.split_send = True
         world.sched_point = sc.yield_here
         world.make_lock = lambda reentrant: S.CoopLock(sc, reentrant)
@@ -65,6 +65,19 @@ def make_runner(h):
                     break
             if names[-1] != 'poll' or 'ready' not in names:
                 raise W.HarnessError('set-up did not reach Ready: %r' % (names,))
+            ws2 = gen2 = None
+            if h.get('two'):
+                # a second, independent connection in the same process (its own WebSocket object, session and socket)
+                ws2 = W.L_websocket.WebSocket('ws://other.example/y', proxies={}, compress=bool(h.get('compress')))
+                gen2 = ws2.connect(**ck)
+                names2 = []
+                for ev in gen2:
+                    names2.append(ev.name)
+                    if ev.name == 'poll' or len(names2) > 6:
+                        break
+                if names2[-1] != 'poll':
+                    raise W.HarnessError('second connection did not reach Ready: %r' % (names2,))
+            ex.ws2 = ws2
             for (api, arg) in h.get('pre', []):      # sequential prologue (e.g. the application already closed)
                 CALLS[api](ws, arg)
             ex.events = []
@@ -95,16 +108,18 @@ def make_runner(h):
                         results.append(('abandon', 'raised', error, _how))
                 sc.spawn(9, closer_body)
             for k, calls in enumerate(h['threads']):
-                def body(results, _calls=calls, _ws=ws):
-                    for (api, arg) in _calls:
+                def body(results, _calls=calls, _ws=ws, _ws2=ws2):
+                    for call in _calls:
+                        target = _ws2 if call[0] == '@2' else _ws
+                        api, arg = call[1:] if call[0] == '@2' else call
                         before = len(world.writes)
                         try:
-                            CALLS[api](_ws, arg)
-                            results.append((api, 'ok', None, arg))
+                            CALLS[api](target, arg)
+                            results.append((api, 'ok', None, arg) + (('@2',) if target is _ws2 and _ws2 is not None else ()))
                         except S.Abort:
                             raise
                         except BaseException as error:  # noqa
-                            results.append((api, 'raised', error, arg))
+                            results.append((api, 'raised', error, arg) + (('@2',) if target is _ws2 and _ws2 is not None else ()))
                 sc.spawn(k + 1, body)
             st = ws.state
 
@@ -129,10 +144,16 @@ def make_runner(h):
                             lk.owner, lk.depth = None, 0
                 try:
                     gen.close()  # tidy up inside the world (nothing below looks at later writes)
+                    if gen2 is not None:
+                        gen2.close()
                 except BaseException:  # noqa
                     pass
-        req, rest = ref_ws.split_http_request(b''.join(w.data for w in world.writes[:ex.wire_len]))
+        req, rest = ref_ws.split_http_request(b''.join(w.data for w in world.writes[:ex.wire_len] if w.conn == 0))
         ex.frames, ex.garbage = ref_ws.decode_client_stream(rest)
+        ex.frames2, ex.garbage2 = [], None
+        if h.get('two'):
+            req2, rest2 = ref_ws.split_http_request(b''.join(w.data for w in world.writes[:ex.wire_len] if w.conn == 1))
+            ex.frames2, ex.garbage2 = ref_ws.decode_client_stream(rest2)
         return ex
     return run_one
 
